@@ -72,7 +72,7 @@ def generate(seed, tier):
     subs = [u("s"), ["b", "s"], u("s2")][: g.randint(1, 3)]
     preds = [u("p"), u("q")][: g.randint(1, 2)]
     objs = [u("o"), ["l", "", None, None], ["l", "0", None, XSD + "integer"], ["l", "v", None, None]][: g.randint(1, 4)]
-    cfg = {"union": g.chance(0.5), "names": names, "vocab": [subs, preds, objs], "sweep_patterns": g.randint(2, 6)}
+    cfg = {"union": g.chance(0.5), "names": names, "vocab": [subs, preds, objs], "sweep_patterns": g.randint(2, 6), "veto_mode": g.chance(0.2)}
     w = {
         "add": g.choice([3, 6]),
         "addN": g.choice([0, 1]),
@@ -116,7 +116,10 @@ def generate(seed, tier):
             if g.chance(0.3) and present():
                 op["t"] = [list(x) for x in g.pick(_srt(present()))[0]]  # an existing triple, usually into another graph
             op["as"] = g.choice(["id", "graph"])
-            model.setdefault(op["g"], set()).add(tuple(tuple(x) for x in op["t"]))
+            if cfg["veto_mode"] and g.chance(0.25):
+                op["veto"] = True  # fault: a TripleAddedEvent subscriber of the store raises during this add
+            else:
+                model.setdefault(op["g"], set()).add(tuple(tuple(x) for x in op["t"]))
         elif kind == "addN":
             op["q"] = [tri() + [gi()] for _ in range(g.randint(1, 4))]
             op["as"] = g.choice(["id", "graph"])
@@ -207,6 +210,21 @@ def execute(trace, ctx):
     ds = Dataset(store, default_union=cfg["union"])
     cg = ConjunctiveGraph(store, identifier=DATASET_DEFAULT_GRAPH_ID)
     ds2 = Dataset(store, default_union=cfg["union"])  # a second handle on the same data
+
+    class SubscriberVeto(Exception):
+        pass
+
+    armed = [False]
+    if cfg.get("veto_mode"):
+        from rdflib.store import TripleAddedEvent
+
+        def on_add(event):
+            if armed[0]:
+                armed[0] = False
+                ctx.fault("subscriber-raised")
+                raise SubscriberVeto()
+
+        store.dispatcher.subscribe(TripleAddedEvent, on_add)
     DEF = ("u", str(DATASET_DEFAULT_GRAPH_ID))
     if len({n[1] for n in names}) < len(names):
         ctx.probe("bnode-and-iri-same-string")
@@ -412,19 +430,28 @@ def execute(trace, ctx):
             triple = (T(t[0]), T(t[1]), T(t[2]))
             if store_empty[0] and gi is not None:
                 ctx.probe("first-triple-of-store-in-named-graph")
-            store_empty[0] = False
-            if via in ("view", "storedview"):
-                v = views[op["sv"]][0] if via == "storedview" and op.get("sv") in views and views[op["sv"]][1] == gk else view_of(gi)
-                v.add(triple)
-            elif gi is None and op.get("as") == "id" and op["uid"] % 3 == 0:
-                (cg if via == "cg" else ds).add(triple + (None,))  # a quad whose graph is None -> default graph
-                ctx.probe("quad-with-None-graph")
-            elif gi is None and op.get("as") == "id":
-                (cg if via == "cg" else ds).add(triple)  # triple without graph -> default graph
-            else:
-                (cg if via == "cg" else ds).add(triple + (garg(op, gi),))
-            model.setdefault(gk, set()).add(tuple(skey(x) for x in t))
-            removed.discard(gk)
+            veto = bool(op.get("veto") and cfg.get("veto_mode"))
+            armed[0] = veto
+            try:
+                if via in ("view", "storedview"):
+                    v = views[op["sv"]][0] if via == "storedview" and op.get("sv") in views and views[op["sv"]][1] == gk else view_of(gi)
+                    v.add(triple)
+                elif gi is None and op.get("as") == "id" and op["uid"] % 3 == 0:
+                    (cg if via == "cg" else ds).add(triple + (None,))  # a quad whose graph is None -> default graph
+                    ctx.probe("quad-with-None-graph")
+                elif gi is None and op.get("as") == "id":
+                    (cg if via == "cg" else ds).add(triple)  # triple without graph -> default graph
+                else:
+                    (cg if via == "cg" else ds).add(triple + (garg(op, gi),))
+            except SubscriberVeto:
+                ctx.probe("add-interrupted-by-subscriber")
+            armed[0] = False
+            # a refused add either took effect in the graph it was aimed at or did not (the graph itself says which); it must
+            # not show anywhere else
+            if not veto or triple in Graph(store, gterm(gi)):
+                store_empty[0] = False
+                model.setdefault(gk, set()).add(tuple(skey(x) for x in t))
+                removed.discard(gk)
         elif k == "addN":
             store_empty[0] = False
             quads = [(T(s), T(p), T(o), garg(op, gi) if not (gi is None and op["uid"] % 2) else None) for s, p, o, gi in op["q"]]
